@@ -20,6 +20,7 @@ import (
 
 type misKnobs struct {
 	EntityIDSet  bool   `json:"entity_id_set"`
+	EntityID     string `json:"entity_id,omitempty"` // with entity_id_set: the configured entity ID ("" = urn:example:sp); plain names are entity IDs too
 	CustomAud    bool   `json:"custom_audience_validator"`
 	FaultyAud    bool   `json:"custom_audience_validator_panics_on_unknown_audience,omitempty"` // the application's validator faults (nil dereference) on audiences it does not know: whatever the library makes of that, the assertion was not approved
 	ReceivedAt   string `json:"received_at"`                                                    // "acs" | "acs-query" | "relative" (path-only request URL, as behind a real net/http server)
@@ -96,10 +97,13 @@ func genMisroute(g *Rng, tier string) *Plan {
 	k := misKnobs{EntityIDSet: g.Bool(0.5), CustomAud: g.Bool(0.2), ReceivedAt: Pick(g, "acs", "acs", "acs-query", "relative"), AllowIDP: g.Bool(0.2), Rebase: g.Bool(0.15),
 		MaxIssueMs: Pick(g, int64(7000), 90_000), MaxClockSkew: Pick(g, int64(1000), 180_000)}
 	k.FaultyAud = k.CustomAud && g.Bool(0.4)
+	if k.EntityIDSet && g.Bool(0.35) {
+		k.EntityID = Pick(g, "my-service", "sp.example.com", "sp/prod", "SP 1")
+	}
 	p := &Plan{Knobs: mustJSON(k)}
 	myAud := misMetadata
 	if k.EntityIDSet {
-		myAud = misEntity
+		myAud = firstNonEmpty(k.EntityID, misEntity)
 	}
 	if k.CustomAud {
 		myAud = "custom-ok"
@@ -296,12 +300,12 @@ func execMisroute(t *testing.T, p *Plan) *Result {
 	idpMD := idpMetadataFor(idpEntity, idpSSO, idpSLO, []KeyPair{rsaKeys[0]}, nil, "signing")
 	ent := ""
 	if k.EntityIDSet {
-		ent = misEntity
+		ent = firstNonEmpty(k.EntityID, misEntity)
 	}
 	spv := newSP(misSPBase, rsaKeys[1], ent, idpMD)
 	myAud := misMetadata
 	if k.EntityIDSet {
-		myAud = misEntity
+		myAud = firstNonEmpty(k.EntityID, misEntity)
 	}
 	if k.CustomAud {
 		myAud = "custom-ok"
